@@ -171,7 +171,7 @@ class VCGen:
         cnt = s.cur['_names'].get(name, 0)
         s.cur['_names'][name] = cnt + 1
         nm = f"{s.cur['name']}/{name}" + (f"~{cnt}" if cnt else "")
-        s.obligs.append(Oblig(nm, list(st.pc), goal, s.cur['name'], line, kind, extra, tuple(s.cur.get('opaque', ())) + (tuple(s.cur.get('opaque_post', ())) if kind in ('post', 'frame', 'raises') else ())))
+        s.obligs.append(Oblig(nm, list(st.pc), goal, s.cur['name'], line, kind, extra, tuple(s.cur.get('opaque', ())) + (tuple(s.cur.get('opaque_post', ())) if kind in ('post', 'frame', 'raises') or name.startswith('hint-return') else ())))
 
     def safe(s, st, what, goal, line):
         if s.specmode:
@@ -243,6 +243,8 @@ class VCGen:
                 return opt_some(want, empty(want.a[0])), want
         if want.k == 'list' and v is None:
             return empty(want), want
+        if want.k == 'dict' and v is None:
+            return default(want), want
         if want.k == 'lref' and t.k == 'lref':
             return v, want
         raise Unsupported(f'cannot coerce {t} to {want}')
@@ -676,6 +678,11 @@ class VCGen:
                     raise Unsupported('heterogeneous list literal')
         return L_lit(LIST(t0), [s.coerce(v, t, t0)[0] for v, t in vs]), LIST(t0)
 
+    def ev_Dict(s, e, st):
+        if e.keys:
+            raise Unsupported('non-empty dict literal')
+        return None, DICT(NONE, NONE)      # type fixed by the declared local it is assigned to
+
     def ev_JoinedStr(s, e, st):
         parts = []
         for p in e.values:
@@ -708,6 +715,8 @@ class VCGen:
         if not s.specmode:
             raise Unsupported('quantifier in code')
         var = e.args[0].id
+        if var in st.env:
+            raise ContractError(f'bound variable {var!r} shadows a name in scope (would capture): rename it')
         if len(e.args) == 4:
             lo, _ = s.ev(e.args[1], st)
             hi, _ = s.ev(e.args[2], st)
@@ -1088,6 +1097,8 @@ class VCGen:
         if 'CountI' in SPEC:
             C = SPEC['CountI']['f']
             st.pc.append(ForAll([x], C(r, n, x) == C(lv, n, x)))
+        st.pc.append(Implies(ForAll([a, b], Implies(And(0 <= a, a < b, b < n), la[a] != la[b])),
+                             ForAll([a, b], Implies(And(0 <= a, a < b, b < n), ra[a] < ra[b]))))
         s.mutate_list(e.func.value, st, lambda v, t: r, e.lineno)
         return BoolVal(False), NONE
 
@@ -1157,7 +1168,11 @@ class VCGen:
             for u in spec_.get('use', []):
                 s.use_lemma(sb, u)
             s.oblige(sb, f'comp-step-drop#{ordn}', s.listeq_goal(at(k + 1, sb), at(k, sb), rt), e.lineno, 'comp')
-        return at(If(dom['count'] >= 0, dom['count'], 0), st), rt
+        res = at(If(dom['count'] >= 0, dom['count'], 0), st)
+        gname = s.cur.get('ghost_after_comp', {}).get(ordn)
+        if gname:                   # ghost name for the comprehension's value (used by later hints)
+            st.env[gname] = (res, rt)
+        return res, rt
 
     def listeq_goal(s, a, b, t):
         if s.cur.get('comp_structural', True):
@@ -1381,6 +1396,20 @@ class VCGen:
         if rt is not None:
             v, t = s.coerce(v, t, rt)
         st.env['result'] = (v, t)
+        br = c.get('before_return')
+        if br:      # a chain of intermediate assertions: each proved (with its lemma instances), then assumed
+            proved_hints = []
+            for k, h in enumerate(br.get('hints', [])):
+                t2 = st.clone()
+                iso = br.get('isolate', {}).get(k)
+                if iso is not None:      # prove this step from the named earlier steps only (fewer hypotheses is always sound)
+                    t2.pc = [h0 for h0 in st.pc if not _has_quant(h0)] + [proved_hints[j] for j in iso]
+                for u in br.get('use', {}).get(k, []):
+                    s.use_lemma(t2, u)
+                s.oblige(t2, f'hint-return#{k}', s.spec_eval(h, t2, 1), line, 'hint')
+                hv = s.spec_eval(h, st, -1)
+                proved_hints.append(hv)
+                st.pc.append(hv)
         up = c.get('use_post', {})
         for k, post in enumerate(c['ensures']):
             extra = []
@@ -1685,6 +1714,9 @@ class VCGen:
         else:
             c, tc = s.ev(n.test, a)
             a.pc.append(Not(s.truthy(c, tc, a)))
+        for name, typ, expr in s.cur.get('ghost_after_loop', {}).get(ordn, []):     # ghost snapshot of a value at loop exit
+            v_, t_ = s.ev(s.parse(expr), a)
+            a.env[name] = (v_, typ)
         for k, h in enumerate(sp.get('hint_exit', [])):
             s.hint(a, h, f'hint-exit#L{ordn}.{k}', n.lineno)
         for u in sp.get('use_exit', []) + s.cur.get('after_loop_use', {}).get(ordn, []):
@@ -1763,6 +1795,14 @@ class VCGen:
             if kind == 'ok':
                 if target is not None:
                     s.assign(target, v, ty, t, line)
+                ac = s.cur.get('after_call', {}).get(q.split('.', 1)[1])
+                if ac:          # intermediate assertions after this call: each proved (with the named lemma instances), then assumed
+                    for k, h in enumerate(ac.get('hints', [])):
+                        t2 = t.clone()
+                        for u in ac.get('use', {}).get(k, []):
+                            s.use_lemma(t2, u)
+                        s.oblige(t2, f'hint-after:{q.split(".")[-1]}#{k}@{line}', s.spec_eval(h, t2, 1), line, 'hint')
+                        t.pc.append(s.spec_eval(h, t, -1))
                 res.append(t)
             else:
                 res += s.do_raise(t, kind[1], v, line)
@@ -2005,6 +2045,12 @@ def _refinement(s, vq):
 
 
 VCGen.refinement = _refinement
+
+
+def _has_quant(e):
+    if is_quantifier(e):
+        return True
+    return any(_has_quant(c) for c in e.children()) if is_app(e) else False
 
 
 def _as_load(t):
